@@ -52,8 +52,6 @@ def prim_shape_problems(f):
                 bad.append("filter '%s' primitive %d: divisor %r" % (f['id'], i, k['divisor']))
         if k['k'] == 'ColorMatrix' and k['kind']['k'] == 'Matrix' and len(k['kind']['values']) != 20:
             bad.append("filter '%s' primitive %d: colour matrix with %d values" % (f['id'], i, len(k['kind']['values'])))
-        if k['k'] == 'ColorMatrix' and k['kind']['k'] == 'Saturate' and not (isinstance(k['kind']['v'], (int, float)) and 0 <= k['kind']['v'] <= 1):
-            bad.append("filter '%s' primitive %d: saturate %r" % (f['id'], i, k['kind']['v']))
         if k['k'] == 'SpecularLighting' and not (isinstance(k['specular_exponent'], (int, float)) and 1 <= k['specular_exponent'] <= 128):
             bad.append("filter '%s' primitive %d: specular exponent %r" % (f['id'], i, k['specular_exponent']))
     return bad
